@@ -9,7 +9,12 @@ spec/C17/Fresh.tla     R-spec: artefacts, their secret-bearing fields, Construct
                              method of the object), with restarts; -simulate for free interleavings of Construct / Reconfigure / Export / Restart;
                              the OPTION LANE: for every entry point with option arguments (OTFAD context flags, IEE lock / key size / mode,
                              BEE engine selection / composition, SB2 signed / SHA / time stamp, ...) histories that walk through ALL option
-                             combinations of Fresh!Opts, each built and exported twice (in one interpreter / across a restart)
+                             combinations of Fresh!Opts, each built and exported twice (in one interpreter / across a restart);
+                             the CONFIGURATION entry points (dictionary, BD command file, YAML file through the nxpimage command line) have
+                             every subset of the pinnable secrets in the menu (SB2.1: each of dek / mac / nonce on its own) and the options
+                             that sit beside them in Opts (zeroPadding x timestamp; MBI: hardware keys x values as hex / as files), so the
+                             option lane builds every (pinned subset x neighbouring options) combination twice; Fresh!Fixed names the
+                             fields an option hands to the user (zeroPadding: the padding), everything else that was not pinned is asserted
  FreshTrace.tla        TV  : batch trace validation of id-canonicalised histories observed on the real code
 
 Kinds of artefacts (menu of Fresh.tla): SB2.0 / SB2.1 through the classes and through load_from_config, SB2.1 from a COMMAND FILE with keyblob
@@ -59,6 +64,13 @@ USER_FIELDS = [("sb_dek", 32), ("sb_mac", 32), ("sb_nonce", 16), ("mbi_key", 32)
                ("iee_key1", 64), ("iee_key2", 64), ("bee_sw_key", 16), ("bee_sw_key2", 16), ("hab_dek", 32), ("hab_nonce", 13), ("habrt_dek", 16)]
 DFLT_MULTI = set()                   # menu items of the base menu whose build emits several artefacts (Fresh!Parts), as TLC emits them
 DFLT = {}                            # (kind, how) -> default option combination, Dflt of Fresh.tla as TLC prints it (set by run() / replay())
+FIXED = {}                           # (kind, how, option combination) -> fields the combination hands to the user, Fixed of Fresh.tla as TLC prints it
+                                     # (used only to NAME the fields of a trace TLC rejected: a finding key never names such a field)
+
+
+def given(kind, how, ex, opt):
+    """the fields that are the user's in a build: supplied, or determined by an option (Fresh!Given)"""
+    return list(ex) + [f for f in FIXED.get((kind, how, tuple(opt or ())), ()) if f not in ex]
 
 
 def how_key(kind, how, opt):
@@ -205,7 +217,7 @@ def execute(item):
     t_start = time.time()
     forked = FORK_OK[0] and hid.startswith("f")   # "f..." ids: short histories without restart; all others get a new process image per segment
     ids, where, evs, info = {}, {}, [], {"errors": [], "phases": [], "forked": forked}
-    kinds = {}
+    kinds, given_of = {}, {}
     narts = sum(1 for s in hist if s["op"] in BUILDS)
     base = os.path.join(scratch(), "c17", hid)
     seen_kind = {}
@@ -243,6 +255,7 @@ def execute(item):
                 note(ph, n, hx)
             if st["op"] == "Construct":
                 kinds[st["art"]] = (st["kind"], how_key(st["kind"], st["how"], st.get("opt")), list(st["ex"]))
+                given_of[st["art"]] = given(st["kind"], st["how"], st["ex"], st.get("opt"))
             elif st["op"] == "Reconfigure":  # reported under its own <how>: the artefact of an object that was configured again
                 kinds[st["art"]] = (st["kind"], "reconfig", list(st["ex"]))
             kind, how, ex = kinds[st["art"]]
@@ -257,7 +270,7 @@ def execute(item):
                     ids[hx] = len(ids) + 1
                     where[ids[hx]] = {"hex": hx, "first": f"{st['op']}#{st['art']}/{kind}/{how}/{name}", "drawn": expl[hx]}
                 f[name] = ids[hx]
-                if name not in ex:
+                if name not in given_of.get(st["art"], ex):
                     info["phases"].append((kind, how, "+".join(ex), name, phase_class(expl[hx])))
             if st["op"] == "Construct":
                 evs.append({"ev": "Construct", "art": st["art"], "kind": kind, "how": st["how"], "ex": ex, "opt": list(st.get("opt", [])),
@@ -303,7 +316,7 @@ def culprits(trace, upto):
     has, kinds = {}, {}
     for e in trace["ev"][:upto]:
         if e["ev"] == "Construct":
-            kinds[e["art"]] = (e["kind"], how_key(e["kind"], e["how"], e.get("opt")), e["ex"])
+            kinds[e["art"]] = (e["kind"], how_key(e["kind"], e["how"], e.get("opt")), given(e["kind"], e["how"], e["ex"], e.get("opt")))
         if e["ev"] == "Reconfigure":
             kinds[e["art"]] = (e["kind"], "reconfig", e["ex"])
         if e["ev"] in ("Construct", "Reconfigure", "Export"):
@@ -311,7 +324,7 @@ def culprits(trace, upto):
     e = trace["ev"][upto]
     if e["ev"] not in ("Construct", "Reconfigure", "Export"):
         return None, []
-    kind, how, ex = ((e["kind"], how_key(e["kind"], e["how"], e.get("opt")), e["ex"]) if e["ev"] == "Construct" else (e["kind"], "reconfig", e["ex"]) if e["ev"] == "Reconfigure"
+    kind, how, ex = ((e["kind"], how_key(e["kind"], e["how"], e.get("opt")), given(e["kind"], e["how"], e["ex"], e.get("opt"))) if e["ev"] == "Construct" else (e["kind"], "reconfig", e["ex"]) if e["ev"] == "Reconfigure"
                      else kinds.get(e["art"], (None, None, None)))
     if kind is None:
         return None, []
@@ -356,13 +369,13 @@ def decide(v, traces, infos, label):
         say(f"[C17]   TV round {rnd + 1}: {len(pending)} traces, {len(rej)} rejected, {res.distinct} states")
         v.extra["tv_states"] = v.extra.get("tv_states", 0) + res.distinct
         by_id = {t["id"]: t for t in pending}
-        again, new_exc = [], set()
+        again, new_exc, unexplained = [], set(), []
         for tid, (matched, length, evname) in sorted(rej.items(), key=lambda kv: (len(by_id[kv[0]]["ev"]), kv[0])):  # shortest witness first
             t = by_id[tid]
             who, bad = culprits(t, matched) if matched < len(t["ev"]) else (None, [])
             if who is None or not bad:
-                raise Machinery(f"trace {tid} rejected at event #{matched + 1} ({evname}) for a reason that is not a shared value "
-                                f"(the executor's trace does not follow the spec): {json.dumps(t['ev'][min(matched, len(t['ev']) - 1)])[:400]}")
+                unexplained.append((tid, matched, evname))
+                continue
             kind, how = who
             all_known = True
             for name, val, owners in bad:
@@ -372,13 +385,29 @@ def decide(v, traces, infos, label):
                 what = (f"history {tid}: {evname} of artefact #{t['ev'][matched]['art']} ({kind} via {how}) carries a self-chosen `{name}` that artefact(s) "
                         f"{owners[:3]} {owner_desc} already carried; value first seen at {w.get('first')}, drawn: {w.get('drawn')}")
                 new = v.violation(key, what, {"history": infos[tid]["hist"], "trace": t, "failed_event": matched + 1, "field": name,
-                                              "value": w, "fake_rng": infos[tid].get("fake", ""), "dflt": {f"{k}/{h}": list(o) for (k, h), o in DFLT.items()}})
+                                              "value": w, "fake_rng": infos[tid].get("fake", ""), "dflt": {f"{k}/{h}": list(o) for (k, h), o in DFLT.items()},
+                                              "fixed": [[k, h, list(o), list(f)] for (k, h, o), f in sorted(FIXED.items())]})
                 if new:
                     all_known = False
                 else:
                     new_exc.add((kind, how, name))
             if all_known:
                 again.append(t)
+        if unexplained:
+            # rejected, but not for a value two artefacts share (e.g. the exported bytes show an option the history did not ask for).  On a tree
+            # whose histories are accepted otherwise that is the executor not following the spec: machinery.  On a tree that already shows
+            # violations of the property in this run it is one more consequence of the defect (options that stick from build to build ...):
+            # recorded, not decided - the run ends with the violations it has.
+            tid, matched, evname = unexplained[0]
+            t = by_id[tid]
+            if not v.violations:
+                raise Machinery(f"trace {tid} rejected at event #{matched + 1} ({evname}) for a reason that is not a shared value "
+                                f"(the executor's trace does not follow the spec): {json.dumps(t['ev'][min(matched, len(t['ev']) - 1)])[:400]}")
+            v.extra.setdefault("rejected_not_for_a_shared_value", []).extend(
+                {"history": u[0], "event": u[1] + 1, "ev": u[2], "logged": by_id[u[0]]["ev"][min(u[1], len(by_id[u[0]]["ev"]) - 1)]} for u in unexplained[:20])
+            say(f"[C17]   {len(unexplained)} trace(s) rejected for a reason that is not a shared value (e.g. {tid} at event #{matched + 1}, {evname}): "
+                f"recorded, not decided - this tree already shows violations")
+            total -= len(unexplained)
         if not again:
             break
         excused |= new_exc
@@ -409,7 +438,9 @@ def T_import():
 
 
 def canary(v):
-    dflt = {("OTFAD", "ctor"): ["ade", "vld"]}   # the option combinations are written out here (cross-checked by TLC: an unknown one is rejected)
+    # the option combinations are written out here (cross-checked by TLC: an unknown one is rejected)
+    dflt = {("OTFAD", "ctor"): ["ade", "vld"], ("MBI", "config"): ["hwk0", "hex"], ("SB21KW", "bd"): ["rndpad", "now"], ("SB21KW", "config"): ["rndpad", "now"]}
+    rn, zn, zt = ["rndpad", "now"], ["zeropad", "now"], ["zeropad", "ts"]
 
     def con(a, kind, how, ex, f, opt=None, part=1):
         return {"ev": "Construct", "art": a, "kind": kind, "how": how, "ex": ex, "opt": dflt.get((kind, how), []) if opt is None else opt, "part": part, "f": f, "x": []}
@@ -430,12 +461,12 @@ def canary(v):
             rcf(8, 7, "MBI", ["key", "ctr_iv"], {"key": 10, "ctr_iv": 11}), rcf(9, 8, "MBI", ["key"], {"key": 10, "ctr_iv": 14}),
             # [18..24] SB2.1 files from command files with two keywrap statements: everything self-chosen; DEK / MAC / nonce the user's, twice
             con(10, "SB21KW", "bd", [], {"dek": 15, "mac": 16, "nonce": 17}),
-            exp(10, {"dek": 15, "mac": 16, "nonce": 17, "hpad": 18, "filler1": 19, "filler2": 20}),
+            exp(10, {"dek": 15, "mac": 16, "nonce": 17, "hpad": 18, "filler1": 19, "filler2": 20}, seen=rn),
             con(11, "SB21KW", "config", ["dek", "mac", "nonce"], {"dek": 21, "mac": 22, "nonce": 23}),
-            exp(11, {"dek": 21, "mac": 22, "nonce": 23, "hpad": 24, "filler1": 25, "filler2": 26}),
+            exp(11, {"dek": 21, "mac": 22, "nonce": 23, "hpad": 24, "filler1": 25, "filler2": 26}, seen=rn),
             con(12, "SB21KW", "config", ["dek", "mac", "nonce"], {"dek": 21, "mac": 22, "nonce": 23}),
-            exp(12, {"dek": 21, "mac": 22, "nonce": 23, "hpad": 27, "filler1": 28, "filler2": 29}),
-            exp(12, {"dek": 21, "mac": 22, "nonce": 23, "hpad": 27}, skip=("filler1", "filler2")),
+            exp(12, {"dek": 21, "mac": 22, "nonce": 23, "hpad": 27, "filler1": 28, "filler2": 29}, seen=rn),
+            exp(12, {"dek": 21, "mac": 22, "nonce": 23, "hpad": 27}, skip=("filler1", "filler2"), seen=rn),
             # [25..28] ONE build that emits two artefacts (BEE, both engines, one user key): two Construct events, two exported files
             con(13, "BEE", "config", ["sw_key"], {"sw_key": 30, "counter": 31, "kib_key": 32, "kib_iv": 33}, opt=["both", "same"], part=1),
             con(14, "BEE", "config", ["sw_key"], {"sw_key": 30, "counter": 34, "kib_key": 35, "kib_iv": 36}, opt=["both", "same"], part=2),
@@ -446,7 +477,19 @@ def canary(v):
             exp(15, {"key": 37, "ctr": 38, "filler": 39}, seen=["ro", "ade", "vld"]),
             # [31..32] both engines with two user keys
             con(16, "BEE", "config", ["sw_key"], {"sw_key": 30, "counter": 40, "kib_key": 41, "kib_iv": 42}, opt=["both", "diff"], part=1),
-            con(17, "BEE", "config", ["sw_key"], {"sw_key": 43, "counter": 44, "kib_key": 45, "kib_iv": 46}, opt=["both", "diff"], part=2)]
+            con(17, "BEE", "config", ["sw_key"], {"sw_key": 43, "counter": 44, "kib_key": 45, "kib_iv": 46}, opt=["both", "diff"], part=2),
+            # [33..36] configuration entry points, zeroPadding and nothing pinned, twice: the header padding is the same (zero: the user's), DEK / MAC key / nonce are new
+            con(18, "SB21", "config", [], {"dek": 47, "mac": 48, "nonce": 49}, opt=zn), exp(18, {"dek": 47, "mac": 48, "nonce": 49, "hpad": 50}, seen=zn),
+            con(19, "SB21", "config", [], {"dek": 51, "mac": 52, "nonce": 53}, opt=zn), exp(19, {"dek": 51, "mac": 52, "nonce": 53, "hpad": 50}, seen=zn),
+            # [37..40] the command line, zeroPadding + timestamp, DEK and MAC key pinned, twice: the same key, so the nonce SPSDK chooses decides
+            con(20, "SB21", "cli", ["dek", "mac"], {"dek": 21, "mac": 22, "nonce": 54}, opt=zt), exp(20, {"dek": 21, "mac": 22, "nonce": 54, "hpad": 50}, seen=zt),
+            con(21, "SB21", "cli", ["dek", "mac"], {"dek": 21, "mac": 22, "nonce": 55}, opt=zt), exp(21, {"dek": 21, "mac": 22, "nonce": 55, "hpad": 50}, seen=zt),
+            # [41..42] one secret pinned on its own (the DEK), the others SPSDK's; a command file with zeroPadding: the fillers are not asserted
+            con(22, "SB21", "config", ["dek"], {"dek": 21, "mac": 56, "nonce": 57}, opt=rn),
+            con(23, "SB21KW", "bd", ["nonce"], {"dek": 58, "mac": 59, "nonce": 23}, opt=zn),
+            # [43..44]
+            exp(23, {"dek": 58, "mac": 59, "nonce": 23, "hpad": 50, "filler1": 19, "filler2": 20}, seen=zn),
+            exp(22, {"dek": 21, "mac": 56, "nonce": 57, "hpad": 60}, seen=rn)]
     cases = {"canary-good": good}
 
     def mutate(name, fn):
@@ -480,6 +523,19 @@ def canary(v):
     mutate("canary-bad-locked-context-shares-key", lambda t: t[29]["f"].update({"key": 1}))         # RO | ADE | VLD: the key of another key blob
     mutate("canary-bad-option-outside-case-space", lambda t: t[29].update({"opt": ["ro", "vld"]}))  # a context that does not decrypt
     mutate("canary-bad-option-did-not-reach-the-code", lambda t: t[30].update({"seen": ["ade", "vld"]}))
+    # configuration entry points: neighbouring options x pinned subsets
+    mutate("canary-bad-zeropad-takes-the-nonce-along", lambda t: t[35]["f"].update({"nonce": 49}))           # zeroPadding and no nonce option: the nonce is still SPSDK's to choose anew
+    mutate("canary-bad-zeropad-nonce-in-file-only", lambda t: t[36]["f"].update({"nonce": 49}))               # ... seen only in the exported bytes
+    mutate("canary-bad-zeropad-pinned-key-same-nonce", lambda t: (t[39]["f"].update({"nonce": 54}), t[40]["f"].update({"nonce": 54})))   # the user's key + the nonce of the build before
+    mutate("canary-bad-zeropad-takes-the-dek-along", lambda t: t[35]["f"].update({"dek": 47}))
+    mutate("canary-bad-padding-shared-without-zeropad", lambda t: t[44]["f"].update({"hpad": 18}))           # no zeroPadding: the padding is SPSDK's
+    mutate("canary-bad-padding-zero-without-zeropad", lambda t: t[44]["f"].update({"hpad": 50}))
+    mutate("canary-bad-zeropad-not-in-the-file", lambda t: t[34].update({"seen": ["rndpad", "now"]}))          # the option did not reach the code
+    mutate("canary-bad-timestamp-not-in-the-file", lambda t: t[38].update({"seen": ["zeropad", "now"]}))
+    mutate("canary-bad-one-pinned-the-other-shared", lambda t: t[41]["f"].update({"mac": 48}))               # DEK pinned alone: the MAC key of another file
+    mutate("canary-bad-one-pinned-the-other-is-a-user-value", lambda t: t[41]["f"].update({"mac": 22}))
+    mutate("canary-bad-subset-outside-the-menu", lambda t: t[41].update({"ex": ["hpad"]}))
+    mutate("canary-bad-zeropad-for-an-entry-point-without-it", lambda t: t[12].update({"opt": ["zeropad", "now"]}))   # MBI has no such option
     traces = [{"id": k, "ev": e} for k, e in cases.items()]
     rej, _ = tv_checked(traces)
     want = set(cases) - {"canary-good"}
@@ -508,7 +564,10 @@ def canary_e2e(v, healthy):
             ("e2e-reconf-const", reconfigured("MBI", [["key"], ["key"]]), "const"),
             # a generator that answers every 4-byte request with the same value: two real SB2.1 files built from command files with keywrap
             # statements (BD text, YAML form) then carry the same key-blob filler and nothing else in common
-            ("e2e-kw-filler", homogeneous(dflt_item("SB21KW", "bd", []), 1) + build_steps(2, dflt_item("SB21KW", "config", [])) + [{"op": "Export", "art": 2}], "const4")]
+            ("e2e-kw-filler", homogeneous(dflt_item("SB21KW", "bd", []), 1) + build_steps(2, dflt_item("SB21KW", "config", [])) + [{"op": "Export", "art": 2}], "const4"),
+            # a generator that answers every 16-byte request with the same value: two real SB2.1 files built through load_from_config with zeroPadding and
+            # nothing pinned then carry the same nonce (and the same zero padding, which is the user's) and nothing else in common
+            ("e2e-cfg-nonce", homogeneous(("SB21", "config", (), ("zeropad", "now"), 1), 2), "const16")]
     out = pmap(execute, runs, procs=len(runs), chunksize=1)
     for t, i in out:
         if t.get("failed"):
@@ -531,18 +590,22 @@ def canary_e2e(v, healthy):
     parts_t = next(t for t, _i in out if t["id"] == "e2e-parts-const")
     parts_ok = (rej.get("e2e-parts-const", (0,))[0] == 2 and {b[0] for b in culprits(parts_t, 2)[1]} == {"counter", "kib_key", "kib_iv"}
                 and "e2e-parts-cycle-short" not in rej)
-    ok = "e2e-const" in rej and "e2e-cycle" in rej and not short_rejected and rej.get("e2e-reconf-const", (0,))[0] == 3 and kw_ok and parts_ok
+    cfg_t = next(t for t, _i in out if t["id"] == "e2e-cfg-nonce")
+    cfg_ok = rej.get("e2e-cfg-nonce", (0,))[0] == 3 and {b[0] for b in culprits(cfg_t, 3)[1]} == {"nonce"}
+    ok = "e2e-const" in rej and "e2e-cycle" in rej and not short_rejected and rej.get("e2e-reconf-const", (0,))[0] == 3 and kw_ok and parts_ok and cfg_ok
     if not ok and healthy and not short_rejected:
         raise Machinery(f"end-to-end canary failed: rejected {rej} (constant and period-64 generators must be rejected, a real MBI object configured "
                         f"twice with a constant generator must be rejected at the Reconfigure event, two real SB2.1 files with keywrap statements and a "
                         f"constant answer to 4-byte requests must be rejected at the second Export for the fillers only, one real BEE build for both engines "
-                        f"with a constant generator must be rejected at the Construct event of its second header for counter / kib_key / kib_iv and accepted with an honest generator)")
+                        f"with a constant generator must be rejected at the Construct event of its second header for counter / kib_key / kib_iv and accepted with an honest generator, "
+                        f"two real SB2.1 files built through load_from_config with zeroPadding and a constant answer to 16-byte requests must be rejected at the second Construct for the nonce only)")
     v.extra["canary_e2e"] = ((f"real OTFAD key blobs with a constant token_bytes rejected at event {rej['e2e-const'][0] + 1}; 40 real BEE headers with a "
                               f"period-64 token_bytes rejected at event {rej['e2e-cycle'][0] + 1} of {rej['e2e-cycle'][1]}; 10 headers (40 draws < 64) accepted; "
                               f"a real MBI object configured twice with a constant token_bytes rejected at its Reconfigure event; two real SB2.1 files with "
                               f"keywrap statements (BD text, YAML form) and a constant answer to 4-byte requests rejected at the second Export for filler1 / filler2 only; "
                               f"ONE real BEE build for both engines with a constant token_bytes rejected at the Construct event of its second region header (counter, kib_key, kib_iv), "
-                              f"two such builds with an honest generator accepted")
+                              f"two such builds with an honest generator accepted; two real SB2.1 files built through load_from_config with zeroPadding, nothing pinned and a "
+                              f"constant answer to 16-byte requests rejected at the second Construct event for the nonce only (the shared zero padding is the user's)")
                              if ok else
                              (f"known-good history (10 real BEE headers, {out[2][1].get('ndraws')} distinct draws) rejected by the spec: reported as a violation of this run"
                               if short_rejected and healthy else f"inconclusive on this tree (rejected: {sorted(rej)}); not enforced because histories were rejected"))
@@ -664,7 +727,10 @@ def gen_opts(all_restarts):
     tab = [x for x in r.json_prints() if isinstance(x, list) and x and isinstance(x[0], dict) and "dflt" in x[0]]
     if not tab:
         raise Machinery("FreshGen (option lane) did not print the options table")
-    return hs, r, tab[0]
+    fx = [x for x in r.json_prints() if isinstance(x, list) and x and isinstance(x[0], dict) and "fixed" in x[0]]
+    if not fx:
+        raise Machinery("FreshGen (option lane) did not print the table of fields that options hand to the user (Fresh!Fixed)")
+    return hs, r, tab[0], fx[0]
 
 
 def shape(h):
@@ -706,7 +772,8 @@ def run(tier):
     # ---- everything that does not depend on anything else runs at the same time: a warm-up interpreter (byte-code cache outside /repo,
     #      SPSDK database cache in the scratch directory), the canary, model checking of R-spec and I-spec, the four GEN runs
     # (explicit option combinations: the options table of the spec is not known yet; each is checked against Fresh!Opts when the table arrives)
-    warm_items = [("MBI", "config", ["key"], []), ("SB21", "config", [], []), ("SB21KW", "bd", [], []), ("SB21KW", "config", [], []), ("HAB", "config", [], ["k256"]),
+    warm_items = [("MBI", "config", ["key"], ["hwk0", "hex"]), ("SB21", "config", [], ["rndpad", "now"]), ("SB21KW", "bd", [], ["rndpad", "now"]),
+                  ("SB21KW", "config", [], ["rndpad", "now"]), ("SB21", "cli", [], ["rndpad", "now"]), ("HAB", "config", [], ["k256"]),
                   ("BEE", "config", ["sw_key"], ["engine0"]), ("OTFAD", "ctor", [], ["ade", "vld"]), ("IEE", "ctor", [], ["unlock", "k256"]),
                   ("HABRT", "ctor", [], ["nor"]), ("HEX", "call", [], ["n32"])]
     warm_hist = [{"op": "Construct", "art": i + 1, "kind": k, "how": h, "ex": e, "opt": o, "part": 1, "parts": 1} for i, (k, h, e, o) in enumerate(warm_items)]
@@ -753,11 +820,16 @@ def run(tier):
     if res["percall"].violated != "PartsFresh":
         raise Machinery(f"I-spec with a key info block drawn once per call: TLC reports {res['percall'].violated or 'no violation'}, PartsFresh must be violated")
     (base2, g1), (full2, g2), (base3, g3), (sim, _g4) = res["base2"], res["full2"], res["base3"], res["sim"]
-    sweeps, g5, opt_table = res["opts"]
+    sweeps, g5, opt_table, fixed_table = res["opts"]
     for g in (g1, g2, g3, g5):
         v.add_mc(g)
     DFLT.clear()
     DFLT.update({(row["kind"], row["how"]): tuple(row["dflt"]) for row in opt_table})
+    FIXED.clear()
+    FIXED.update({(row["kind"], row["how"], tuple(row["opt"])): tuple(row["fixed"]) for row in fixed_table})
+    for (k, h, o), fs in FIXED.items():
+        if not set(fs) <= set(FIELDS.get(k, ())) or tuple(o) == DFLT.get((k, h)):
+            raise Machinery(f"Fresh!Fixed({k}, {h}, {o}) = {fs}: unknown field, or the default option combination hands a field to the user")
     for k, h, _e, o in warm_items:
         if DFLT.get((k, h)) != tuple(o):
             raise Machinery(f"warm-up interpreter built {k}/{h} with the options {o}, Fresh.tla has the default {DFLT.get((k, h))}")
@@ -972,7 +1044,10 @@ def run(tier):
           f"{len(sweep_keys)} (kind, how, user-supplied fields), each building and exporting every combination twice in one interpreter, and "
           f"{'for the base items ' if quick else ''}once more with the second pass in a new interpreter; "
           f"OTFAD context flags RO / ADE / VLD, IEE lock x key size x mode, BEE composition / lock options / engine selection, SB2 signed / SHA flag / given time stamp, "
-          f"MBI hardware user-mode keys, HAB SecretKey_Length, legacy HAB IVT offset, load_hex_string sizes); builds that emit several artefacts (BEE for both engines: two region "
+          f"MBI hardware user-mode keys, HAB SecretKey_Length, legacy HAB IVT offset, load_hex_string sizes; the CONFIGURATION entry points of SB2.1 - load_from_config "
+          f"with a dictionary, a BD command file through parse_sb21_config, a YAML file through `nxpimage sb21 export` (click runner) - with zeroPadding x timestamp for EVERY "
+          f"subset of the pinned secrets dek / mac / nonce, encrypted MBI configurations with enableHwUserModeKeys x values as hex strings / files x CtrInitVector pinned or not, "
+          f"HAB configurations with SecretKey_ReuseDek x Decrypt_Nonce each on its own); builds that emit several artefacts (BEE for both engines: two region "
           f"headers = two artefacts, {len(multi)} item(s) of the base menu, in every lane)"
         + "; TLC-simulated free interleavings; one homogeneous history of 70..130 constructions per base item, long mixed ones and one object configured again " + ("24..48" if quick else "40..80") + " times. "
         "Each interpreter segment runs in a fresh interpreter. distinct = distinct sequences of (kind, how, user-supplied set) / reconfigure / export / restart steps; "
@@ -994,8 +1069,14 @@ def run(tier):
         f"histories of <= {NARROW_MAX_ARTS} constructions (birthday bound 2^-32 per pair; wider fields everywhere)",
         "SB2.1 from a command file (kind SB21KW): BD text through BootImageV21.parse_sb21_config (BDParser) + load_from_config, and the YAML form as the dictionary "
         "load_from_config takes (as for SB21 / config; reading and schema validation of a YAML file are not part of the build); two keyblob definitions, two keywrap "
-        "statements and one encrypt statement in one or two sections, no zeroPadding option (with it a constant filler is what the user asked for); key, counter and range "
+        "statements and one encrypt statement in one or two sections; key, counter and range "
         "of a keyblob definition are mandatory there (the user's) and not observed; the two fillers inside ONE file are not compared with each other",
+        "the option zeroPadding of an SB2.1 configuration ('Zero padding instead of random padding is useful if you want to binary compare two SB 2.1 files') hands the PADDING to "
+        "the user (Fresh!Fixed): the 8 bytes of header padding and the filler word of wrapped key blobs are recorded but not asserted in builds with it, whatever SPSDK puts there.  "
+        "DEK, MAC key and nonce are not padding and have options of their own (dek, mac, nonce): each of them that is not pinned is asserted to be new, with or without zeroPadding / timestamp",
+        "the command line is driven in-process (click's CliRunner on spsdk.apps.nxpimage.main, `sb21 export -c file.yaml`): argument parsing, reading and schema validation of the YAML "
+        "file, cert-block / key files named in it and the written output file are part of the build; the other nxpimage sub-commands (mbi / hab / bee export) call the same "
+        "load_from_config the menu drives directly and are not run through click",
         "random alignment filler of SB2 load commands / sections and the SB1 format are not key material of the property's list and are not observed",
         "HAB: the encrypted image is built through HabContainer.load_from_config (YAML form); the legacy BootImgRT class is observed through dek_key / nonce only (no CSF, no export)",
         "re-use of one object is a step of the histories only where the public API has it: MasterBootImage.load_from_config is a method of the object (Reconfigure); "
@@ -1013,6 +1094,7 @@ def replay(path):
     import_spsdk()
     w = json.load(open(path))["witness"]
     DFLT.update({tuple(k.split("/")): tuple(o) for k, o in w.get("dflt", {}).items()})
+    FIXED.update({(k, h, tuple(o)): tuple(f) for k, h, o, f in w.get("fixed", [])})
     t, info = execute(("replay", w["history"], w.get("fake_rng", "")))
     if t.get("failed"):
         raise Machinery(f"replay could not be executed: {info['errors'][0]['error']}")
